@@ -1,6 +1,7 @@
 import QtVerif.Proofs.SequencePlay
 import QtVerif.Proofs.SequenceOps
 import QtVerif.Proofs.SequenceInFlight
+import QtVerif.Proofs.SequenceFrame
 /-!
 C19 — Sequences write the given values in order, with the given delays and repeats.
 
@@ -9,6 +10,14 @@ the cancelling prefixes of expression assignment / disable, `patch_port_sequence
 ready queue and timers; `iter` = one `_run_once`). Lemmas: `Proofs/SequencePlay.lean`, `SequenceCancel.lean`,
 `SequenceOps.lean`. `Fix.repaired` is the model proper (the two repairs of `fixes/C19-*.diff`); `Fix.asFound` is the
 code at the pinned commit and is only used for the `unrepaired_…` counter-examples.
+
+"Submission" in the model (`Handle.ff`, logged as `Event.sub`) is the first step of the task that
+`_transform_and_write_value_fire_and_forget` creates, i.e. the entry of `transform_and_write_value` — also with the
+per-port submit lock and write lock that /repo has since c62ed27 / a2fcb59: the lock is taken *inside*
+`transform_and_write_value` (around the write transform and the queueing), is FIFO and, for a port without write
+transform, is never held across a suspension, so values are queued in the order of these entries; the write lock only
+serialises the driver's `write_value` calls. The harness observes the same point (override of
+`transform_and_write_value`) and, on the driver side, completeness and order of `write_value`.
 
 Time is in integer ms. `schedule t0 vs ds r` = for each of r passes, value i at `t0 + pass·Σd + d₀+…+dᵢ₋₁`
 (non-positive delays count as 0, as `asyncio.sleep` treats them).
@@ -71,6 +80,55 @@ example : Fix.repaired.flushLast = true ∧ Port.default.seq = none ∧
   intro t ht
   simp at ht
   rcases ht with rfl | rfl | rfl <;> trivial
+
+/-- **A sequence plays its schedule whatever else is queued.** `s` is a hub state that is "sequence `sid` just installed +
+bystanders" (`Frame.Rel … (.A 0)`): its loop task is created and queued once, nothing of it is submitted yet, and every
+other handle in the ready queue or in a timer is a bystander — leftovers of other sequences (stale loop steps, values in
+flight), requests that will be refused whatever the state (malformed body, length mismatch), enable requests, driver
+hooks coming back, calls of the harness still travelling through the queue (at any distance, at any instant, also at
+the sequence's own firing instants); the timers are sorted by time and the observation window is open. Then
+* at every later moment the submissions of `sid` are full passes of `schedule` followed by the beginning of the next;
+* for r > 0 some moment has exactly `schedule now vs ds r` submitted for `sid`, with the port reporting no sequence;
+* for r ≤ 0 every number of passes is eventually submitted in full.
+Proof: the own handles commute with the projection onto the sequence's part of the hub (one loop step is a `Frame.Delta`
+that depends on `port.seq` and the clock only), bystanders leave the projection alone and use up a finite measure; the
+projected run is the uncancelled run of `playback_eq_schedule`. Operations that do touch the sequence (an accepted new
+sequence, an expression, disable) are not bystanders: what they do is `cancel_is_immediate`. -/
+theorem playback_among_bystanders (s : St) (sid : Nat) (vs : List Val) (ds : List Int) (r : Int)
+    (hne : vs ≠ []) (hlen : ds.length = vs.length) (hrel : Frame.Rel ⟨s.now, vs, ds, r, sid⟩ s (.A 0)) :
+    (∀ k, ∃ c i, subsOfSid sid (iterN Fix.repaired k s).log =
+      schedule s.now vs ds c ++ (passAt s.now vs ds c).take i) ∧
+    (0 < r → ∃ k, (iterN Fix.repaired k s).port.seq = none ∧
+      subsOfSid sid (iterN Fix.repaired k s).log = schedule s.now vs ds r.toNat) ∧
+    (r ≤ 0 → ∀ c, ∃ k, subsOfSid sid (iterN Fix.repaired k s).log = schedule s.now vs ds c) :=
+  QtVerif.Sequence.playback_among_bystanders s sid vs ds r hne hlen hrel
+
+/-- The hypothesis of `playback_among_bystanders` holds right after `set_sequence` on a hub `s0` that satisfies the
+invariant of `in_flight_belongs_to_reported_sequence` (every reachable state does), reports no sequence and has only
+bystanders queued. -/
+theorem newly_installed_is_playback_state (s0 : St) (vs : List Val) (ds : List Int) (r : Int) (hne : vs ≠ [])
+    (g : Fl.G s0) (hseq : s0.port.seq = none)
+    (hb : ∀ h ∈ s0.ready, Frame.bys s0.nextId h = true) (ht : ∀ t ∈ s0.timers, Frame.bys s0.nextId t.h = true)
+    (hs : Frame.timeSorted s0.timers) (hw : s0.waiting = none) (hc : s0.cap = 0) (hst : s0.stopped = false)
+    (hlog : s0.log.filter (Frame.ownEv s0.nextId) = []) :
+    Frame.Rel ⟨s0.now, vs, ds, r, s0.nextId⟩ (install s0 vs ds r) (.A 0) :=
+  Frame.installed_rel s0 vs ds r hne g hseq hb ht hs hw hc hst hlog
+
+/-- Non-vacuity: a hub on which a first sequence ([1] once) has run to its end while a malformed request of the harness
+is still three trips away in a timer at t = 40 and an enable request waits at t = 7: no sequence, bystanders only. -/
+example :
+    let s0 := iterN Fix.repaired 3 (([(⟨0, 1, .hop 0 0 (.patchSeq [.num 2] [5] 1)⟩ : Timer),
+        ⟨7, -1, .hop 1 1 (.setEnabled true)⟩, ⟨40, 1, .hop 3 2 .malformed⟩]).foldl
+        (fun s t => s.addTimer t.time t.rank t.h) (St.init Port.default 0 256))
+    Fl.G s0 ∧ s0.port.seq = none ∧ s0.nextId = 1 ∧ subsOf s0.log = [(0, .num 2)] ∧
+    (∀ h ∈ s0.ready, Frame.bys s0.nextId h = true) ∧ (∀ t ∈ s0.timers, Frame.bys s0.nextId t.h = true) ∧
+    s0.timers.length = 2 ∧ s0.waiting = none ∧ s0.cap = 0 ∧ s0.stopped = false ∧
+    s0.log.filter (Frame.ownEv s0.nextId) = [] := by
+  refine ⟨Fl.G_iterN _ rfl 3 (Fl.G_start _ _ _ _ rfl ?_), ?_⟩
+  · intro t ht
+    simp at ht
+    rcases ht with rfl | rfl | rfl <;> trivial
+  · decide
 
 /-- **repeat = 0: indefinitely.** (Also for negative repeat counts, which the request schema does not exclude.) The
 sequence stays active for ever, what has been submitted is at every moment a prefix of the infinite periodic schedule,
